@@ -273,7 +273,11 @@ func cmdCheck(args []string) int {
 			if j.MaxWallS > left {
 				j.MaxWallS = left
 			}
-			r := runJob(prog, j, per)
+			nwj := per
+			if j.Workers > nwj {
+				nwj = j.Workers
+			}
+			r := runJob(prog, j, nwj)
 			pmu.Lock()
 			fmt.Println("  " + r.summary())
 			pmu.Unlock()
